@@ -442,6 +442,8 @@ pub fn run_c01(p: &Params) -> Outcome {
     let nt = |f: &OFacts| f.ready >= 1 && f.pending >= 1 && f.cond_not_stored >= 1;
     let mut out = exh("C01", p, "c01-exh", Flv::Sync, Focus::Values, if p.thorough { 5 } else { 4 }, 2, &nt);
     out.merge(exh("C01", p, "c01-exh-async", Flv::Async, Focus::Values, if p.thorough { 4 } else { 3 }, 2, &nt));
+    // overlapping calls on the async-lock flavour (futures queued behind a guard) are histories of C01 as well
+    out.merge(run_guard_scripts("C01", p, p.n(20_000, 300_000)));
     out.merge(rand("C01", p, "c01-rand", Flv::Both, p.n(60_000, 1_000_000), 60, 300, &nt));
     out
 }
@@ -475,10 +477,16 @@ pub fn run_c16(p: &Params) -> Outcome {
     out.merge(exh("C16", p, "c16-exh-wakes", Flv::Both, Focus::Wakes, if p.thorough { 6 } else { 5 }, 3, &nt));
     out.merge(exh("C16", p, "c16-exh-handles", Flv::Both, Focus::Handles, if p.thorough { 6 } else { 5 }, 2, &nt));
     out.merge(rand("C16", p, "c16-rand", Flv::Both, p.n(60_000, 1_000_000), 40, 250, &nt));
-    // guard scripts
+    out.merge(run_guard_scripts("C16", p, p.n(40_000, 600_000)));
+    out
+}
+
+/// async-lock guard scripts (guards held across other calls). Errors carry the properties they belong
+/// to as a "[C01|C16] ..." prefix; untagged ones are C16's.
+pub fn run_guard_scripts(prop: &str, p: &Params, n: u64) -> Outcome {
     let seed = p.seed;
-    let gen_name = "c16-guards";
-    out.merge(p.cases(gen_name, p.n(40_000, 600_000), |i, out| {
+    let gen_name = "async-guard-scripts";
+    p.cases(gen_name, n, |i, out| {
         out.ev.evaluations += 1;
         let case = json!({"gen": gen_name, "case": i, "seed": seed});
         let mut log = vec![];
@@ -497,22 +505,42 @@ pub fn run_c16(p: &Params) -> Outcome {
         }));
         match r {
             Ok(Ok(kind)) => {
-                out.ev.count(if kind == 0 { "guard_scripts_writer_holds" } else { "guard_scripts_writer_waits" });
+                out.ev.count(match kind {
+                    0 => "guard_scripts_writer_holds",
+                    1 => "guard_scripts_writer_waits",
+                    _ => "guard_scripts_next_and_writer_queued",
+                });
                 out.ev.nontrivial(hash_of(&log));
-                if out.ev.get("guard_scripts_writer_waits") + out.ev.get("guard_scripts_writer_holds") <= 2 {
+                if out.ev.samples.len() < 2 {
                     out.ev.samples.push(json!({"guard_script": log}));
                 }
             }
-            Ok(Err(what)) => out.violations.push(Violation { property: "C16".into(), case, history: log, what }),
-            Err(_) => out.violations.push(Violation {
-                property: "C16".into(),
-                case,
-                history: log,
-                what: format!("panic in the guard script: {}", last_panic()),
-            }),
+            Ok(Err(what)) => {
+                let mine = match what.strip_prefix('[').and_then(|r| r.split_once(']')) {
+                    Some((tags, _)) => tags.split('|').any(|t| t == prop),
+                    None => prop == "C16",
+                };
+                if mine {
+                    out.violations.push(Violation { property: prop.to_string(), case, history: log, what });
+                } else {
+                    out.ev.foreign += 1;
+                    out.ev.count("foreign_divergence_in_guard_script");
+                }
+            }
+            Err(_) => {
+                if prop == "C16" {
+                    out.violations.push(Violation {
+                        property: prop.to_string(),
+                        case,
+                        history: log,
+                        what: format!("panic in the guard script: {}", last_panic()),
+                    });
+                } else {
+                    out.ev.foreign += 1;
+                }
+            }
         }
-    }));
-    out
+    })
 }
 
 // ---------------------------------------------------------------------------------------------
@@ -580,8 +608,103 @@ fn guard_script(rng: &mut Rng, log: &mut Vec<String>) -> Result<u8, String> {
             }
         }
     }
-    let script = rng.below(2) as u8;
-    if script == 0 {
+    let script = rng.below(3) as u8;
+    if script == 2 {
+        // ---- a subscriber's next()/next_ref() future and a writer both queue behind a write guard
+        let i = rng.below(k);
+        let v1 = gen_val(rng);
+        let v2 = gen_val(rng);
+        let how = rng.below(2);
+        let mut g = bo(ob.write())?;
+        log.push("write guard acquired".into());
+        let handed: Option<Val>;
+        {
+            let sub = &mut subs[i];
+            let mut nf: std::pin::Pin<Box<dyn Future<Output = Option<Val>> + '_>> = if how == 0 {
+                Box::pin(async move { sub.next().await.map(|h| h.val()) })
+            } else {
+                Box::pin(async move { sub.next_ref().await.map(|g| g.val()) })
+            };
+            let (fl_n, wk_n) = flag_waker();
+            if nf.as_mut().poll(&mut Context::from_waker(&wk_n)).is_ready() {
+                return Err("a subscriber's next() completed while a write guard was held".into());
+            }
+            log.push(format!("s{i}.{}() polled while the write guard is held -> Pending", if how == 0 { "next" } else { "next_ref" }));
+            let mut wf = pin!(ob2.set(Hk::new(v2)));
+            let (fl_w, wk_w) = flag_waker();
+            if wf.as_mut().poll(&mut Context::from_waker(&wk_w)).is_ready() {
+                return Err("a set() completed while a write guard was held".into());
+            }
+            log.push(format!("set({v2:?}) polled while the write guard is held -> Pending"));
+            let prev0 = ObservableWriteGuard::set(&mut g, Hk::new(v1)).val();
+            if prev0 != value {
+                return Err(format!("guard.set returned {prev0:?}, previous value is {value:?}"));
+            }
+            log.push(format!("guard.set({v1:?}); guard dropped"));
+            drop(g);
+            if !fl_n.woken() && !fl_w.woken() {
+                return Err("neither the queued subscriber nor the queued writer was woken when the write guard was dropped".into());
+            }
+            // drive both to completion, alternating
+            let mut got_n: Option<Option<Val>> = None;
+            let mut got_w: Option<Val> = None;
+            for _ in 0..12 {
+                if got_n.is_none() {
+                    let (_f, w) = flag_waker();
+                    if let Poll::Ready(x) = nf.as_mut().poll(&mut Context::from_waker(&w)) {
+                        got_n = Some(x);
+                    }
+                }
+                if got_w.is_none() {
+                    let (_f, w) = flag_waker();
+                    if let Poll::Ready(x) = wf.as_mut().poll(&mut Context::from_waker(&w)) {
+                        got_w = Some(x.val());
+                    }
+                }
+                if got_n.is_some() && got_w.is_some() {
+                    break;
+                }
+            }
+            let (Some(n), Some(w)) = (got_n, got_w) else {
+                return Err(format!("after the write guard was dropped the queued operations did not complete (next: {got_n:?}, set: {got_w:?})"));
+            };
+            log.push(format!("next -> {n:?}; set -> {w:?}"));
+            if w != v1 {
+                return Err(format!("the queued set returned {w:?}, the value stored before it was {v1:?}"));
+            }
+            match n {
+                Some(x) if x == v1 || x == v2 => handed = Some(x),
+                other => return Err(format!("the queued next() returned {other:?}, expected the value stored through the guard {v1:?} or the later {v2:?}")),
+            }
+        }
+        value = v2;
+        version += 2;
+        // C01: ready exactly when an unobserved update exists
+        let (r, _f) = poll_sub(&mut subs[i], 0);
+        log.push(format!("poll s{i} -> {r:?}"));
+        if handed == Some(v2) && v1 != v2 {
+            if r != Poll::Pending {
+                return Err(format!("[C01|C16] s{i} was handed the latest value {v2:?} by next(), yet the following poll answers {r:?} although no update happened in between"));
+            }
+        } else if v1 != v2 {
+            if r != Poll::Ready(Some(v2)) {
+                return Err(format!("[C01|C16] s{i} was handed {v1:?}; the later update to {v2:?} must be delivered next, got {r:?}"));
+            }
+        }
+        observed[i] = version;
+        reg_flags[i] = None;
+        // the other subscribers catch up
+        for j in 0..k {
+            if j != i {
+                let (r, _f) = poll_sub(&mut subs[j], rng.below(3));
+                if r != Poll::Ready(Some(value)) {
+                    return Err(format!("s{j} answered {r:?} after two updates, expected Ready(Some({value:?}))"));
+                }
+                observed[j] = version;
+                reg_flags[j] = None;
+            }
+        }
+    } else if script == 0 {
         // ---- a write guard is held across subscriber polls
         let mut g = bo(ob.write())?;
         log.push("write guard acquired".into());
